@@ -237,11 +237,85 @@ HARNESSES = [
 ]
 HARNESSES[0].validate = validate_parallel
 HARNESSES[1].validate = validate_subsample
+
+
+# the third clause ("the single-annotator wrapper chooses samples in the order the wrapped strategy ranks them"): the C07
+# scenario (real SingleAnnotatorWrapper around UncertaintySampling / RandomSampling, whose own answer is recorded) on the
+# configurations where the order is at stake: uneven availability, more annotators requested than a sample has
+def _cfg_saw_order(tier):
+    out = []
+    for cmode in (("none", "idx") if tier == "quick" else ("none", "idx", "rows")):
+        for amode in ("none", "matrix"):
+            for b, napp in ([(2, 2)] if tier == "quick" else [(2, 1), (2, 2), (3, 2)]):
+                out.append(dict(n=2, A=2, cmode=cmode, amode=amode, b=b, napp=napp, perf=None))
+    out.append(dict(n=3, A=2, cmode="none", amode="none", b=5, napp=[2, 1], perf=None))
+    out.append(dict(n=2, A=2, cmode="none", amode="none", b=2, napp=2, perf=None, inner="random"))
+    return out
+
+
+_ORDER_LABELS = ("samples_in_the_order_of_the_wrapped_strategy", "annotators_per_sample_respected")
+
+
+class _OrderEnv(pl.Env):
+    """only the ordering clause belongs to C20: termination, distinctness and availability of the pairs are C07's (and its
+    open finding about availability rows without annotators is not raised again here)"""
+
+    def prove(self, cond, label, info=None):
+        if label in _ORDER_LABELS:
+            pl.Env.prove(self, cond, label, info)
+
+
+def sym_saw_order(c, n, A, cmode, amode, b, napp, perf, enc="float", inner="us"):
+    from harness import C07
+    s = C07.gen(c, n, A, cmode, amode)
+    if not s.avail:
+        raise core.PathAbort("no available pair")
+    C07._saw(_OrderEnv(c), s, b, napp, perf, enc=enc, inner_kind=inner)
+    c.witness(True, "ran")
+
+
+def _run_saw_order(inputs, n, A, cmode, amode, b, napp, perf, enc, inner, seed=None):
+    from harness import C07
+    s = C07.real_gen(inputs, n, A, cmode, amode)
+    s.A_perf = inputs.get("A_perf")
+    if seed is not None:
+        s.seed = seed
+    env = _OrderEnv()
+    C07._saw(env, s, b, napp, perf, table=inputs.get("__clf__"), timeout=5, enc=enc, inner_kind=inner)
+    return s, env
+
+
+def replay_saw_order(inputs, label, n, A, cmode, amode, b, napp, perf, enc="float", inner="us"):
+    for seed in [None] + ([] if inputs.get("__scripted__") else list(range(12))):
+        s, env = _run_saw_order(inputs, n, A, cmode, amode, b, napp, perf, enc, inner, seed)
+        got = pl.reproduced(env, label)
+        if got:
+            return True, (f"SingleAnnotatorWrapper(random_state={s.seed}).query(X={s.X.ravel().tolist()}, y labeled mask={s.lab.tolist()}, "
+                          f"candidates={s.cand if cmode != 'rows' else 'rows'}, annotators="
+                          f"{s.annot if amode != 'matrix' else np.asarray(s.annot).tolist()}, batch_size={b}, "
+                          f"n_annotators_per_sample={napp}): {got} {env.violated[got]}")
+    return False, "not reproduced"
+
+
+def validate_saw_order(inputs, n, A, cmode, amode, b, napp, perf, enc="float", inner="us"):
+    return sorted(_run_saw_order(inputs, n, A, cmode, amode, b, napp, perf, enc, inner)[1].violated)
+
+
+def _saw_harness():
+    from harness import C07
+    h = Harness("single_annotator_wrapper_order", sym_saw_order, replay_saw_order, _cfg_saw_order, C07.UNITS[:6] + C07.UNITS[8:],
+                required_witnesses=("ran",), max_paths=20000)
+    h.validate = validate_saw_order
+    return h
+
+
+HARNESSES.append(_saw_harness())
 BOUNDS = dict(quick="n = 3, candidate modes None / index subsets / 2 feature rows; parallel: n_jobs in {1,2,3,-1} with cpu_count in "
                     "{2,8}; sub-sampling: max_candidates in {1,2,0.5} x exclude_non_subsample x batch_size in {1,2}",
               thorough="n in {3,4}; max_candidates in {1,2,3,0.5,0.34,1.0}",
-              outside="inner strategies other than UncertaintySampling (pre-fitted stub classifier, fit_clf=False) and CoreSet; the single-annotator "
-                      "wrapper's ordering claim is checked under C07")
+              outside="inner strategies other than UncertaintySampling (pre-fitted stub classifier, fit_clf=False) and CoreSet; single-annotator wrapper: "
+                      "2-3 samples x 2 annotators around UncertaintySampling / RandomSampling (the scenario of C07, which checks it on all "
+                      "its configurations)")
 ASSUMPTIONS = [
     "joblib.Parallel/delayed by contract (sequential, order preserving); cpu_count() is a parameter of the harness",
     "inner classifier = pre-fitted stub (predict_proba uninterpreted function of the feature row), fit_clf=False so that both "
